@@ -420,44 +420,64 @@ def res_rules(ctx):
            node=body[clip_i if clip_i is not None else 0], key='clip',
            why='requested times are not clipped to [state.index[0], state.index[-1]] before '
                'interpolation: times outside the span are extrapolated or raise')
-    rets = [n for n in walk_no_nested_funcs(f.node) if isinstance(n, ast.Return)]
-    ok = len(rets) == 1 and isinstance(rets[0].value, ast.Subscript) and \
-        norm_text(rets[0].value.slice) == '%s.columns' % state
-    ctx.ob('RES-COLS', ok, None, 'return result[state.columns]', f=f,
-           node=(rets[0] if rets else f.node), key='cols',
-           why='result is not re-ordered by state.columns: the column order of the input is lost')
-    # routing
-    slerp_ok = interp_ok = comp_ok = False
+    # names by role (dataflow), not by spelling
+    R = S = I = O = None
+    slerp_call = interp_call = None
     for n in ast.walk(f.node):
-        if isinstance(n, ast.Call) and res(n.func) == 'scipy.spatial.transform.Slerp':
-            t = norm_text(n)
-            slerp_ok = "%s[RPH_COLS]" % state in t and "from_euler('xyz'" in t and \
-                ('True' in t or 'degrees=True' in t) and norm_text(n.args[0]) == '%s.index' % state
-        if isinstance(n, ast.Call) and res(n.func) == 'scipy.interpolate.interp1d':
-            t = norm_text(n)
-            interp_ok = norm_text(n.args[0]) == '%s.index' % state and 'other_columns' in t or \
-                'difference(RPH_COLS)' in t
-            interp_ok = interp_ok and any(k.arg == 'axis' and norm_text(k.value) == '0'
-                                          for k in n.keywords)
-        if isinstance(n, ast.Assign) and isinstance(n.value, ast.Call) and \
-                norm_text(n.value) == '%s.columns.difference(RPH_COLS)' % state:
-            comp_ok = True
+        if isinstance(n, ast.Assign) and isinstance(n.targets[0], ast.Name) and \
+                isinstance(n.value, ast.Call):
+            q = res(n.value.func)
+            if q == 'pandas.DataFrame' and any(k.arg == 'index' and norm_text(k.value) == times
+                                               for k in n.value.keywords):
+                R = n.targets[0].id
+            elif q == 'scipy.spatial.transform.Slerp':
+                S, slerp_call = n.targets[0].id, n.value
+            elif q == 'scipy.interpolate.interp1d':
+                I, interp_call = n.targets[0].id, n.value
+            elif norm_text(n.value) == '%s.columns.difference(RPH_COLS)' % state:
+                O = n.targets[0].id
+    rets = [n for n in walk_no_nested_funcs(f.node) if isinstance(n, ast.Return)]
+    ok = len(rets) == 1 and isinstance(rets[0].value, ast.Subscript) and R is not None and \
+        norm_text(rets[0].value.value) == R and \
+        norm_text(rets[0].value.slice) == '%s.columns' % state
+    ctx.ob('RES-COLS', ok, None, 'result table (indexed by the clipped times) returned as '
+           'result[state.columns]', f=f, node=(rets[0] if rets else f.node), key='cols',
+           why='result is not re-ordered by state.columns: the column order of the input is lost')
+    slerp_ok = False
+    if slerp_call is not None and len(slerp_call.args) >= 2:
+        a0, a1 = slerp_call.args[:2]
+        slerp_ok = norm_text(a0) == '%s.index' % state and isinstance(a1, ast.Call) and \
+            (res(a1.func) or '').endswith('Rotation.from_euler') and \
+            isinstance(a1.args[0], ast.Constant) and a1.args[0].value == 'xyz' and \
+            norm_text(a1.args[1]) == '%s[RPH_COLS]' % state and \
+            ((len(a1.args) > 2 and norm_text(a1.args[2]) == 'True') or
+             any(k.arg == 'degrees' and norm_text(k.value) == 'True' for k in a1.keywords))
     ctx.ob('RES-SLERP', slerp_ok, None, "RPH columns -> Slerp(state.index, from_euler('xyz', "
-           "state[RPH_COLS], degrees))", f=f, key='slerp',
+           "state[RPH_COLS], degrees))", f=f, node=(slerp_call or f.node), key='slerp',
            why='attitude columns are not interpolated by SLERP over the state index with the '
                "library's Euler convention")
-    ctx.ob('RES-SLERP', interp_ok and comp_ok, None, 'complement of RPH columns -> interp1d over '
-           'state.index along axis 0', f=f, key='interp',
+    interp_ok = False
+    if interp_call is not None and len(interp_call.args) >= 2 and O is not None:
+        interp_ok = norm_text(interp_call.args[0]) == '%s.index' % state and \
+            norm_text(interp_call.args[1]) in ('%s[%s].values' % (state, O),
+                                               '%s[%s]' % (state, O),
+                                               '%s[%s].to_numpy()' % (state, O)) and \
+            any(k.arg == 'axis' and norm_text(k.value) == '0' for k in interp_call.keywords)
+    ctx.ob('RES-SLERP', interp_ok, None, 'complement of RPH columns -> interp1d over state.index '
+           'along axis 0', f=f, node=(interp_call or f.node), key='interp',
            why='non-attitude columns are not exactly the complement of RPH_COLS interpolated '
                'linearly over the state index')
-    # stores: result[RPH_COLS] from slerp, result[other] from interpolator
     stores = {}
-    for st in body + [s for b in body if isinstance(b, ast.If) for s in b.body]:
+    for st in ast.walk(f.node):
         if isinstance(st, ast.Assign) and isinstance(st.targets[0], ast.Subscript) and \
-                norm_text(st.targets[0].value) == 'result':
-            stores[norm_text(st.targets[0].slice)] = norm_text(st.value)
-    ok = 'slerp(' in stores.get('RPH_COLS', '') and 'as_euler(\'xyz\'' in stores.get('RPH_COLS', '') \
-        and 'interpolator(' in stores.get('other_columns', '')
-    ctx.ob('RES-SLERP', ok, None, 'result[RPH_COLS] <- slerp(times), result[other] <- '
-           'interpolator(times)', f=f, key='stores',
-           why='interpolated blocks are stored under the wrong columns: %s' % stores)
+                R is not None and norm_text(st.targets[0].value) == R:
+            stores[norm_text(st.targets[0].slice)] = st.value
+    v1, v2 = stores.get('RPH_COLS'), stores.get(O or '?')
+    ok = v1 is not None and v2 is not None and S is not None and I is not None and \
+        norm_text(v1) in ("%s(%s).as_euler('xyz', True)" % (S, times),
+                          "%s(%s).as_euler('xyz', degrees=True)" % (S, times)) and \
+        norm_text(v2) == '%s(%s)' % (I, times)
+    ctx.ob('RES-SLERP', ok, None, 'result[RPH_COLS] <- slerp(times) as xyz degrees, result[other] '
+           '<- interpolator(times)', f=f, key='stores',
+           why='interpolated blocks are stored under the wrong columns or evaluated at other '
+               'times: %s' % {k: norm_text(v)[:60] for k, v in stores.items()})
